@@ -4,6 +4,9 @@ import json
 import os
 import sys
 import warnings
+
+if hasattr(sys, "set_int_max_str_digits"):
+    sys.set_int_max_str_digits(0)   # exact counts can have thousands of digits
 from fractions import Fraction
 
 warnings.simplefilter("ignore")
